@@ -23,7 +23,7 @@ ASSUMPTIONS = [
 ]
 COMPONENTS = {"real": ["twosigma.memento (all)", "CPython file API", "tmpfs directory tree", "process death via fork/_exit"],
               "stub": ["uuid4 (seeded)", "wall clock (virtual)", "user program (fixed scenario module)"]}
-REACH = ["non_ascii_store_path", "window_cases", "twin_asked_first", "fired:crash-before", "fired:error-before", "fired:crash-after-open", "fired:torn", "fired:short-error",
+REACH = ["fired:error-at-close", "fired:crash-at-close", "non_ascii_store_path", "window_cases", "twin_asked_first", "fired:crash-before", "fired:error-before", "fired:crash-after-open", "fired:torn", "fired:short-error",
          "fired:error-first-write", "dedup_path_taken", "recovered_after_fault"]
 
 PROGRAM = '''
@@ -326,7 +326,9 @@ VARIANTS_ANY = [("crash-before", {}), ("error-before", {"errno": "ENOSPC"}), ("e
                 ("error-before", {"errno": "EIO"})]
 VARIANTS_OPEN = [("crash-after-open", {}), ("torn", {"cut": "one"}), ("torn", {"cut": "half"}), ("torn", {"cut": "allbut1"}),
                  ("short-error", {"cut": "half", "errno": "ENOSPC"}), ("short-error", {"cut": "zero", "errno": "EFBIG"}),
-                 ("short-error", {"cut": "allbut1", "errno": "ENOSPC"}), ("error-first-write", {"errno": "ENOSPC"})]
+                 ("short-error", {"cut": "allbut1", "errno": "ENOSPC"}), ("error-first-write", {"errno": "ENOSPC"}),
+                 # the written data is lost (half of it arrives) when the file is CLOSED: reported there, or the process dies there
+                 ("error-at-close", {"errno": "ENOSPC"}), ("crash-at-close", {})]
 
 
 def baseline_events(scn, cfg):
